@@ -28,12 +28,13 @@ HARNESSES = {
     "nothing":              ("eq/lt", "cmp.nothing", "complete"),
     "numbers_second_view":  ("eq/lt", "cmp.numbers.second_view", "complete"),
     "canary_must_fail":     ("eq", "canary", "canary"),
+    "contract_cmp_i64_f64": ("cmp_i64_f64", "cmp_i64_f64.contract", "complete"),
     "index_ijson":          ("process_index", "index.rfc.len_le_3", "bounded"),
     "index_any_i64_probe":  ("process_index", "index.no_precondition", "probe"),
 }
 BY_PROP = {
     "C04": ["num_int_int", "num_float_float", "eq_int_float", "eq_float_int", "lt_int_float", "lt_float_int",
-            "mixed_shapes_small", "cross_types", "nothing", "canary_must_fail"],
+            "mixed_shapes_small", "cross_types", "nothing", "contract_cmp_i64_f64", "canary_must_fail"],
     "C15": ["numbers_second_view", "num_int_int", "canary_must_fail"],
     # the comparison harnesses run the real eq / lt with Kani's overflow, cast and panic checks on: they are also
     # absence-of-panic proofs for the numeric comparison code (cmp_numbers, cmp_i64_f64)
@@ -49,7 +50,7 @@ def harness_file(h: str) -> str:
     return "kani/index_harness.rs" if h.startswith("index_") else "kani/comparison_harness.rs"
 
 
-def prepare_crate(run, files=None, tag: str = "") -> str:
+def prepare_crate(run, files=None, tag: str = "", contract: bool = False) -> str:
     """scratch copy of the crate with the harness files appended (all of them, or only `files` + the shared types)"""
     dst = os.path.join(run.scratch, "kani-crate" + tag)
     if os.path.exists(dst):
@@ -60,6 +61,14 @@ def prepare_crate(run, files=None, tag: str = "") -> str:
             continue
         with open(os.path.join(dst, rel), "a") as f:
             f.write(open(os.path.join(VERIF, src)).read())
+        if src == "kani/comparison_harness.rs" and contract:
+            # the Kani function contract of the numeric kernel is attached to the REAL function in place (one attribute line, cfg(kani) only)
+            path = os.path.join(dst, rel)
+            text = open(path).read()
+            text, n = re.subn(r"(?m)^fn cmp_i64_f64\(", "#[cfg_attr(kani, kani::ensures(|r: &Option<Ordering>| verif_kani_cmp::post_cmp_i64_f64(i, f, r)))]\nfn cmp_i64_f64(", text, count=1)
+            text = text.replace("#[cfg(all(kani, verif_kani_contract))]", "#[cfg(kani)]")   # the proof_for_contract harness exists only in this copy
+            open(path, "w").write(text)
+            run.kani_contract_attached = bool(n)
     return dst
 
 
@@ -98,9 +107,9 @@ def parse(output: str) -> dict:
     return res
 
 
-def cargo_kani(crate: str, harnesses: list[str], target: str, extra: list[str] = (), timeout=3000, jobs: int = 8):
+def cargo_kani(crate: str, harnesses: list[str], target: str, extra: list[str] = (), timeout=3000, jobs: int = 8, contracts: bool = False):
     env = dict(os.environ, CARGO_NET_OFFLINE="true", CARGO_TARGET_DIR=target)
-    cmd = ["cargo", "kani", "-Z", "stubbing"] + [x for h in harnesses for x in ("--harness", h)] + \
+    cmd = ["cargo", "kani", "-Z", "stubbing"] + (["-Z", "function-contracts"] if contracts else []) + [x for h in harnesses for x in ("--harness", h)] + \
           (["-j", str(jobs)] if jobs > 1 else []) + ["--output-format", "terse"] + list(extra)
     t0 = time.time()
     try:
@@ -112,10 +121,10 @@ def cargo_kani(crate: str, harnesses: list[str], target: str, extra: list[str] =
     return " ".join(cmd), out, time.time() - t0
 
 
-def playback(run, crate: str, target: str, harness: str) -> dict:
+def playback(run, crate: str, target: str, harness: str, contracts: bool = False) -> dict:
     """concrete playback: let Kani print the concrete values of the failing trace (one little-endian byte vector per
     kani::any()), then run the SAME harness natively against the real code on those values (native/main.rs kani_replay)"""
-    cmd, out, _ = cargo_kani(crate, [harness], target, ["-Z", "concrete-playback", "--concrete-playback=print"], timeout=1800, jobs=1)
+    cmd, out, _ = cargo_kani(crate, [harness], target, ["-Z", "concrete-playback", "--concrete-playback=print"], timeout=1800, jobs=1, contracts=contracts)
     m = re.search(r"let concrete_vals: Vec<Vec<u8>> = vec!\[(.*?)\];\s*kani::concrete_playback_run", out, flags=re.S)
     info = {"kani_cmd": cmd}
     if not m:
@@ -160,14 +169,26 @@ def run_for(run):
     crate = prepare_crate(run, files)
     # a private target directory per run: concurrent checks must not share Kani's build artefacts
     target = os.path.join(run.scratch, "kani-target")
-    cmd, out, wall = cargo_kani(crate, names, target)
+    plain = [h for h in names if not h.startswith("contract_")]
+    cmd, out, wall = cargo_kani(crate, plain, target)
     res = parse(out)
-    if len(files) > 1 and not any(res.get(h, {}).get("status") for h in names):
+    cnames = [h for h in names if h.startswith("contract_")]
+    if cnames:
+        # function contracts: the ensures attribute is attached to the real function in a SEPARATE scratch copy and checked with
+        # -Z function-contracts there (with the attribute present every other harness that reaches the function slows down by 10x)
+        c3 = prepare_crate(run, ["kani/comparison_harness.rs"], tag="-contract", contract=True)
+        cmd3, out3, _ = cargo_kani(c3, cnames, target + "-contract", contracts=True)
+        res.update(parse(out3))
+        out += out3
+        cmd += " ; " + cmd3
+        if not getattr(run, "kani_contract_attached", True):
+            run.undecided.append("kani function contract: `fn cmp_i64_f64(` not found in src/query/comparison.rs - the ensures attribute could not be attached")
+    if len(files) > 1 and not any(res.get(h, {}).get("status") for h in plain):
         # nothing ran (the crate with both harness files does not build): one crate per harness file, so that the file whose
         # functions kept their signatures is still decided
         res, out = {}, ""
         for i, fl in enumerate(files):
-            sub = [h for h in names if harness_file(h) == fl]
+            sub = [h for h in plain if harness_file(h) == fl]
             c2 = prepare_crate(run, [fl], tag=f"-{i}")
             cmd2, out2, _ = cargo_kani(c2, sub, target + f"-{i}")
             res.update(parse(out2))
@@ -208,7 +229,7 @@ def run_for(run):
             pb = {}
             try:
                 run._kani_playbacks = getattr(run, "_kani_playbacks", 0) + 1
-                pb = playback(run, crate, target, h) if run._kani_playbacks <= 2 else {"note": "playback limited to the first two failing harnesses of a run"}
+                pb = (playback(run, os.path.join(run.scratch, "kani-crate-contract"), target + "-contract", h, contracts=True) if h.startswith("contract_") else playback(run, crate, target, h)) if run._kani_playbacks <= 2 else {"note": "playback limited to the first two failing harnesses of a run"}
             except Exception as e:      # playback is best effort; the violation is reported either way
                 pb = {"error": str(e)}
             os.makedirs(os.path.join(VERIF, "replays"), exist_ok=True)
